@@ -581,6 +581,38 @@ type Block struct {
 
 	data    []byte   // serialized format as described above
 	dataSrc []uint64 // slice that provides the 8-byte aligned memory used for data.
+
+	// true if SBIndices is a copy of its bytes in data instead of a view of them (the bytes are not
+	// 4-byte aligned when the number of sub-blocks is odd); edits are written back by storeSBIndices.
+	sbDetached bool
+}
+
+// sbIndexView returns the little-endian sub-block indices held in b: a view of the bytes themselves
+// when they are 4-byte aligned, else (detached) a copy.  The serialized layout puts the indices after
+// 16 + 8*numLabels + 2*numSubBlocks bytes, which is only 2-byte aligned for an odd number of sub-blocks.
+func sbIndexView(b []byte) (indices []uint32, detached bool, err error) {
+	if indices, err = dvid.AliasByteToUint32(b); err == nil {
+		return indices, false, nil
+	}
+	if len(b)%4 != 0 {
+		return nil, false, err
+	}
+	indices = make([]uint32, len(b)/4)
+	for i := range indices {
+		indices[i] = binary.LittleEndian.Uint32(b[i*4 : i*4+4])
+	}
+	return indices, true, nil
+}
+
+// storeSBIndices writes SBIndices back into the serialized data when they are a detached copy.
+func (b *Block) storeSBIndices() {
+	if !b.sbDetached {
+		return
+	}
+	pos := 16 + len(b.Labels)*8 + len(b.NumSBLabels)*2
+	for i, index := range b.SBIndices {
+		binary.LittleEndian.PutUint32(b.data[pos+i*4:pos+i*4+4], index)
+	}
 }
 
 // CompressGZIP returns a gzip compressed encoding of the serialized block data.
@@ -945,6 +977,7 @@ func (b *Block) MergeLabels(op MergeOp) (merged *Block, err error) {
 			merged.SBIndices[i] = targetIndex
 		}
 	}
+	merged.storeSBIndices()
 	return
 }
 
@@ -1871,6 +1904,7 @@ func (b *Block) setExportedVars() (err error) {
 		b.NumSBLabels = nil
 		b.SBIndices = nil
 		b.SBValues = nil
+		b.sbDetached = false
 		return
 	}
 
@@ -1901,7 +1935,7 @@ func (b *Block) setExportedVars() (err error) {
 	if pos+subBlockIndexBytes > dataBytes {
 		return fmt.Errorf("block of %d bytes is too short for its %d sub-block indices", dataBytes, numSubBlockIndices)
 	}
-	b.SBIndices, err = dvid.AliasByteToUint32(b.data[pos : pos+subBlockIndexBytes])
+	b.SBIndices, b.sbDetached, err = sbIndexView(b.data[pos : pos+subBlockIndexBytes])
 	if err != nil {
 		return
 	}
@@ -2819,7 +2853,7 @@ func (s *subvolumeData) encodeBlock() (*Block, error) {
 	copy(b.NumSBLabels, numSubBlockLabels)
 
 	pos += nbytes
-	b.SBIndices, err = dvid.AliasByteToUint32(b.data[pos : pos+subBlockIndexBytes])
+	b.SBIndices, b.sbDetached, err = sbIndexView(b.data[pos : pos+subBlockIndexBytes])
 	if err != nil {
 		return nil, err
 	}
@@ -2834,6 +2868,7 @@ func (s *subvolumeData) encodeBlock() (*Block, error) {
 		}
 		i += uint32(b.NumSBLabels[sbNum])
 	}
+	b.storeSBIndices()
 
 	pos += subBlockIndexBytes
 	b.SBValues = b.data[pos:]
